@@ -77,37 +77,11 @@ theorem zeroPrec_valid {zs : List Char} (hz : ∀ c ∈ zs, c = '0') : Valid [.d
       simp only [positions, positionsFrom, List.mem_singleton, Prod.mk.injEq] at h h'
       rw [h.2, h'.2]
 
-/-- the model on `%.<zs>d` with more than 4300 digits: `int(precision)` raises `ValueError` -/
-theorem zeroPrec_crash {zs : List Char} (hz : ∀ c ∈ zs, c = '0') (hl : zs.length > CFormatTables.intMaxStrDigits) :
-    parseW false (render [.dir (zeroPrec zs)]) = .error (.crash .ValueError) := by
-  have hne : zs.isEmpty = false := by
-    cases zs with
-    | nil => simp at hl
-    | cons z zs => rfl
-  have hti : CFmt.typeInfo (Body.std none 'd') = .ok ("int", true, false) := by rfl
-  have hconv : conversion false St.init (zeroPrec zs) = .error (.crash .ValueError) := by
-    simp only [conversion, zeroPrec, hti, Body.conv, warn_false, ite_self, checkFlags, distinct, flagLoop, List.contains_nil,
-      Bool.false_and, Bool.false_eq_true, if_false, doWidth, doPrec, pyInt_eq, hne, Nat.not_le.2 hl]
-  unfold parseW
-  rw [scan_complete (zeroPrec_valid hz).wf]
-  simp only [steps, step, hconv]
-
 /-- 4301 zeros -/
 def witness : List Char := render [.dir (zeroPrec (List.replicate 4301 '0'))]
 
 theorem witness_zeros : ∀ c ∈ List.replicate 4301 '0', c = '0' := fun _ hc => (List.mem_replicate.1 hc).2
 
 theorem witness_valid : Valid [.dir (zeroPrec (List.replicate 4301 '0'))] := zeroPrec_valid witness_zeros
-
-/-- the model's outcome on the witness (the check replays it on the real code) -/
-theorem witness_crash : parse witness = .error (.crash .ValueError) := by
-  have h := zeroPrec_crash witness_zeros (by simp [CFormatTables.intMaxStrDigits])
-  have := parseW_arguments true witness
-  unfold witness at this ⊢
-  rw [h] at this
-  unfold parse
-  cases h2 : parseW true (render [.dir (zeroPrec (List.replicate 4301 '0'))]) with
-  | ok r => rw [h2] at this; cases this
-  | error e => rw [h2] at this; simp only [map_error, Except.error.injEq] at this; rw [this]
 
 end I18n.CFmt
